@@ -228,9 +228,12 @@ func main() {
 	// replay mode
 	if *replay != "" {
 		cmd := exec.Command(worker, "-prop", prop, "-replay", *replay)
+		ownGroup(cmd)
+		defer killGroup(cmd)
 		cmd.Env = wenv
 		cmd.Stdout, cmd.Stderr = os.Stdout, os.Stderr
 		err := cmd.Run()
+		killGroup(cmd)
 		code := 0
 		if ee, ok := err.(*exec.ExitError); ok {
 			code = ee.ExitCode()
@@ -585,6 +588,8 @@ func readCur(path string) int {
 // not change for stall seconds or it exceeds the overall deadline.
 func superviseWorker(worker string, args, env []string, curPath string, deadlineS, stallS float64) (state string, stderr string, code int) {
 	cmd := exec.Command(worker, args...)
+	ownGroup(cmd)
+	defer killGroup(cmd)
 	cmd.Env = env
 	var eb bytes.Buffer
 	cmd.Stderr = &eb
@@ -616,12 +621,12 @@ func superviseWorker(worker string, args, env []string, curPath string, deadline
 				last, lastChange = s, time.Now()
 			}
 			if time.Since(lastChange).Seconds() > stallS {
-				cmd.Process.Kill()
+				killGroup(cmd)
 				<-done
 				return "hung", tail(eb.String(), 6000), -1
 			}
 			if time.Since(start).Seconds() > deadlineS {
-				cmd.Process.Kill()
+				killGroup(cmd)
 				<-done
 				return "overran", tail(eb.String(), 6000), -1
 			}
@@ -678,6 +683,7 @@ func confirmDeath(worker, prop, tier string, seed uint64, idx int, env []string,
 	var lastErr string
 	for i := 0; i < 2; i++ {
 		cmd := exec.Command(worker, "-prop", prop, "-tier", tier, "-base", fmt.Sprint(seed), "-case", fmt.Sprint(idx))
+		ownGroup(cmd)
 		cmd.Env = env
 		var ob, eb bytes.Buffer
 		cmd.Stdout, cmd.Stderr = &ob, &eb
@@ -689,10 +695,11 @@ func confirmDeath(worker, prop, tier string, seed uint64, idx int, env []string,
 		select {
 		case err = <-done:
 		case <-time.After(time.Duration(stallS+5) * time.Second):
-			cmd.Process.Kill()
+			killGroup(cmd)
 			<-done
 			hung = true
 		}
+		killGroup(cmd)
 		if hung {
 			lastErr = "hang"
 			continue
@@ -726,6 +733,8 @@ func confirmDeath(worker, prop, tier string, seed uint64, idx int, env []string,
 // confirmHang replays one case alone under the same watchdog.
 func confirmHang(worker, prop, tier string, seed uint64, idx int, env []string, stallS float64) bool {
 	cmd := exec.Command(worker, "-prop", prop, "-tier", tier, "-base", fmt.Sprint(seed), "-case", fmt.Sprint(idx))
+	ownGroup(cmd)
+	defer killGroup(cmd)
 	cmd.Env = env
 	cmd.Start()
 	done := make(chan error, 1)
@@ -734,7 +743,7 @@ func confirmHang(worker, prop, tier string, seed uint64, idx int, env []string, 
 	case <-done:
 		return false
 	case <-time.After(time.Duration(stallS+5) * time.Second):
-		cmd.Process.Kill()
+		killGroup(cmd)
 		<-done
 		return true
 	}
@@ -768,7 +777,10 @@ func selfTest(worker, prop, tier string, seed uint64, env []string, ref map[stri
 		os.MkdirAll(dir, 0o755)
 		cmd := exec.Command(worker, "-prop", prop, "-tier", tier, "-base", fmt.Sprint(seed), "-nshards", "1", "-shard", "0", "-selftest-only", "-out", dir, "-replays", filepath.Join(dir, "replays"))
 		cmd.Env = append(append([]string{}, env...), "GOMAXPROCS="+procs)
-		if out, err := cmd.CombinedOutput(); err != nil {
+		ownGroup(cmd)
+		out, err := cmd.CombinedOutput()
+		killGroup(cmd)
+		if err != nil {
 			if ee, ok := err.(*exec.ExitError); ok && (ee.ExitCode() == 3 || ee.ExitCode() == 4) {
 				return "cut short: a self-test case hangs or deadlocks (see the reported violation)"
 			}
@@ -789,4 +801,18 @@ func selfTest(worker, prop, tier string, seed uint64, env []string, ref map[stri
 		}
 	}
 	return fmt.Sprintf("ok: %d digests of %d cases identical across fresh processes at GOMAXPROCS 1/4/16 and the sharded run", checked, len(ref))
+}
+
+// ownGroup puts a worker into a process group of its own, so that whatever it
+// started (driver processes, cold-start children) can be removed with it: a
+// worker killed for stalling must not leave a spinning child behind.
+func ownGroup(cmd *exec.Cmd) {
+	cmd.SysProcAttr = &syscall.SysProcAttr{Setpgid: true, Pdeathsig: syscall.SIGKILL}
+}
+
+func killGroup(cmd *exec.Cmd) {
+	if cmd.Process != nil {
+		syscall.Kill(-cmd.Process.Pid, syscall.SIGKILL)
+		cmd.Process.Kill()
+	}
 }
